@@ -22,8 +22,8 @@ CONTRACT_GROUPS = ['C13']   # icontract layer (vlib/contracts.py) active inside 
 RULE = ("case = one configuration + point; non-trivial if some constraint kind has a finite bound (info required); distinct key = case index; "
         "monitor_counters count compared entries and how many were violated bounds")
 ASSUMPTIONS = ["with transforms the user-domain result must satisfy the formula with the user-domain bounds (to 1e-9 relative)"]
-REQUIRED = {"quick": {"entries_compared": 20000, "violated_entries": 3000, "mixed_infinite_both_sides": 300, "tracker_checked": 300, "transformed_compared": 1473, "with_mask": 800, "results_without_functions": 600, "points_within_1e-8_of_a_bound": 700, "explicit_evaluation_vector": 800, "__nontrivial__": 2000},
-            "thorough": {"entries_compared": 400000, "violated_entries": 60000, "mixed_infinite_both_sides": 6000, "tracker_checked": 6000, "transformed_compared": 24061, "with_mask": 15000, "results_without_functions": 10000, "points_within_1e-8_of_a_bound": 12000, "explicit_evaluation_vector": 15000, "__nontrivial__": 40000}}
+REQUIRED = {"quick": {"entries_compared": 20000, "violated_entries": 3000, "mixed_infinite_both_sides": 300, "tracker_checked": 300, "transformed_compared": 1473, "with_mask": 800, "results_without_functions": 600, "points_within_1e-8_of_a_bound": 700, "explicit_evaluation_vector": 800, "infinite_value_against_a_finite_bound": 200, "__nontrivial__": 2000},
+            "thorough": {"entries_compared": 400000, "violated_entries": 60000, "mixed_infinite_both_sides": 6000, "tracker_checked": 6000, "transformed_compared": 24061, "with_mask": 15000, "results_without_functions": 10000, "points_within_1e-8_of_a_bound": 12000, "explicit_evaluation_vector": 15000, "infinite_value_against_a_finite_bound": 3500, "__nontrivial__": 40000}}
 N = {"quick": 6000, "thorough": 100000}
 
 
@@ -49,13 +49,14 @@ def _formula(obs, name, value, lo, hi, got_lower, got_upper, got_viol, rtol=1e-1
     for tag, g, w in (("lower_diff", got_lower, want_l), ("upper_diff", got_upper, want_u), ("violation", got_viol, want_v)):
         g = np.asarray(g)
         obs.count("entries_compared", int(g.size))
-        same = (g == w) | (np.abs(g - w) <= rtol * (1 + np.abs(w)))
+        with np.errstate(invalid="ignore"):
+            same = (g == w) | (np.isfinite(w) & (np.abs(g - w) <= rtol * (1 + np.abs(w))))      # an infinite difference is matched exactly
         if g.shape != w.shape or not np.all(same):
             obs.violation("formula_" + name + "_" + tag, got=g, want=w, value=value, lower=lo, upper=hi)
             ok = False
     obs.count("violated_entries", int(np.count_nonzero(want_v > 0)))
     gv = np.asarray(got_viol)
-    if gv.shape == want_v.shape and rtol <= 1e-12 and np.any((want_v > 0) & (gv == 0)):
+    if gv.shape == want_v.shape and np.any((want_v > 0) & (gv == 0) & ((rtol <= 1e-12) | np.isinf(want_v))):
         obs.violation("outside_a_finite_bound_without_positive_violation", kind=name, got=gv, want=want_v, value=value, lower=lo, upper=hi)
         ok = False
     return ok
@@ -87,6 +88,13 @@ def run_case(case, obs):
     if n_con:
         clo, chi = _bounds(rng, n_con)
         spec["con_lb"], spec["con_ub"] = clo.tolist(), chi.tolist()
+        if rng.random() < 0.15:
+            # a simulator that overflows: an infinite value on the wrong side of a finite bound is an infinite violation
+            # (the sign is chosen so that no difference is inf - inf)
+            j = int(rng.integers(n_con))
+            sign = 1 if np.isfinite(chi[j]) else (-1 if np.isfinite(clo[j]) else 0)
+            if sign:
+                spec["inf"] = [{"col": 1 + j, "sign": sign}]
     if n_lin:
         A = np.round(rng.normal(size=(n_lin, V)), 2)
         A[np.all(A == 0, axis=1)] = 1.0
@@ -176,7 +184,16 @@ def run_case(case, obs):
         clo, chi = np.asarray(spec["con_lb"]), np.asarray(spec["con_ub"])
         raw = ev.calls[0].constraints
         want = raw.mean(axis=0)
-        if not np.allclose(cval, want, rtol=1e-9, atol=1e-12):
+        fin = np.isfinite(want)      # what the estimate of an overflowing output is, is C01's question; here: which side of the bound
+        if spec.get("inf"):
+            obs.count("infinite_value_against_a_finite_bound")
+            j = spec["inf"][0]["col"] - 1
+            big = cval[j] * spec["inf"][0]["sign"]
+            obs.check(big > 1e300, "overflowing_constraint_value_not_huge", got=cval, raw=want)
+            if info.nonlinear_violation is not None:
+                obs.check(info.nonlinear_violation[j] > 1e300, "infinite_value_outside_a_finite_bound_without_violation",
+                          violation=info.nonlinear_violation, value=cval, lower=clo, upper=chi)
+        if not np.allclose(cval[fin], want[fin], rtol=1e-9, atol=1e-12):
             obs.violation("user_constraint_values", got=cval, want=want)
         if info.nonlinear_lower is None:
             obs.violation("nonlinear_info_missing")
